@@ -3,6 +3,21 @@
 import json
 
 CLAIMED = {
+    "C09": {
+        "text": "Proof: Value.eq / Value.partialCmp mirror the Rust impls clause for clause; the Lean theorems show that among int, uint and double they coincide with the exact comparison of the numbers denoted (numKey: the value scaled by 2^1074 in Z plus +-inf; cmpIntD_matches_key is the numeric core for the truncate-then-fraction helper), NaN is unordered and unequal to everything, != negates ==, wherever < is defined exactly one of <,==,> holds and <=/>= are their disjunctions, a<b iff b>a, the order and equality are transitive across numeric kinds, strings compare by code point lexicographically, lists/maps are equal exactly element-/entry-wise, values of unrelated types are unequal and unordered, and max/min of mutually comparable values return a member bounding all others. Tie to the code: all ordered pairs of a ~100-value boundary set through Value::eq/partial_cmp directly, random pairs around 2^53/2^63/2^64, programs using the six relations, in, min, max; predicates on the implementation's own answers (symmetry, swap, trichotomy, exactness against an independent exact comparison, transitivity over all triples).",
+        "technique": "Lean 4: exact rational embedding of doubles (integer arithmetic on decoded bit patterns), linear-order transfer through an order key + exhaustive boundary-pair/triple differential correspondence",
+        "design_ref": "DESIGN.md section 5, C09",
+    },
+    "C19": {
+        "text": "Proof: by induction over the expression tree with a panic-tolerant Hoare triple: if evaluation fails with undeclared n then n is among the reported variables or functions, for every tree whose @-identifiers are bound by an enclosing comprehension and every context (undeclared_is_reported); conversely, when the context defines every reported variable and every reported non-operator function and operator names are used with their own arity, evaluation never fails with an undeclared reference (declared_never_undeclared); @-accumulators are never reported, every reported variable is an identifier of the tree, every call name is reported, and the report takes no context. Tie to the code: generated programs with names in every syntactic position against contexts defining random subsets; reference sets and outcome compared with the model, and the four clauses evaluated directly on the implementation's report.",
+        "technique": "Lean 4 induction on Expr with an error-predicate Hoare calculus (SatP) + differential correspondence on reference sets and undeclared errors",
+        "design_ref": "DESIGN.md section 5, C19",
+    },
+    "C20": {
+        "text": "Proof: receiver_style_equiv: for every registered function whose first parameter is the receiver extractor followed by positional parameters (every receiver-style built-in has that shape, builtin_receiver_shapes), x.f(args) and f(x, args) are the same computation - same outcome, log and step count - for all x and args; a host function's body is reached only with parameters of the declared shapes in declaration order (host_receives_declared_types), conversion never coerces (fromValue_exact), a missing argument / receiver or a mistyped argument is an execution error and the body is not invoked, registering a name replaces the previous function and leaves other names alone; panic-freedom is C02's eval_no_panic. Tie to the code: every receiver-style built-in x receivers and arguments of every kind in both styles (compared pairwise), every host signature of the catalogue (arity 0-9, all parameter types, This/Option/Arguments/Identifier/Expression, with and without FunctionContext) with 0..arity+2 arguments of matching and mismatching kinds in both styles, also overriding a built-in; what the closure saw is compared with the model and with a reference computed from the signature.",
+        "technique": "Lean 4 equational theorem over argument extraction (index-shift lemma by induction on the signature) + catalogue-driven differential correspondence on closure-observed arguments",
+        "design_ref": "DESIGN.md section 5, C20",
+    },
     "C14": {
         "text": "Proof: Lean theorems: list indexing yields the element in range and null otherwise for every Int index; `k in m`, `m.contains(k)` and `m[k] != null` are all the same function of Map::get, hence agree on presence for every map with non-null values and every key (presence_agreement); int and uint twins of a key agree on presence (numeric_twin_keys_same); has(m.f) agrees with 'f' in m when no non-string key renders to f, and m.f = m['f'] when present; a map literal with pairwise distinct keys contains exactly the entries written (induction over the entry list); size is additive over + for lists and strings (UTF-8 length), concatenation is left operand followed by right; `x in l` iff some element equals x, and contains is the same test. Tie to the code: all maps with up to 3 keys over an 8-key mixed alphabet x 12 queries x both call routes, all lists up to length 4 x indices -2..len+1 and the i64 extremes, random strings/lists for the additive laws, against the model and a recomputation from the written container.",
         "technique": "Lean 4 theorems over association-list maps and lists (induction, insert/find lemmas) + exhaustive small-container differential correspondence",
